@@ -143,7 +143,8 @@ def module_of(relpath: str) -> str:
     return p.replace("/", ".")
 
 
-EXTERNALS = ["os", "os.path", "ext.lib.x", "ext.lib", "extra", "proj_ext.m", "projx", "aproj", "ab.cd", "a", "ext.lib.x.y.z", "deep.er.than.most"]
+EXTERNALS = ["os", "os.path", "ext.lib.x", "ext.lib", "extra", "proj_ext.m", "projx", "aproj", "ab.cd", "a", "ext.lib.x.y.z", "deep.er.than.most",
+             "roj.a", "roj", "pro", "pproj.a"]   # the last four: internal names with a character cut off / added
 
 
 def gen_imports(rng, tree, relpath, root="proj", externals=True, n=None):
@@ -287,6 +288,17 @@ def real_scan(proj, root, mp, **kw):
     except Exception as e:  # noqa: BLE001
         return "ERR:" + err_kind(e)
     nodes, imps, hier = graph_snapshot(ev)
+    # the public listing: exactly the modules of the architecture, whatever a caller did to a list it was handed before
+    try:
+        listed = ev.modules
+        if sorted(listed) != sorted(nodes):
+            return "ERR:modules-property-differs-from-the-architecture:" + ",".join(sorted(set(listed) ^ set(nodes)))[:200]
+        if isinstance(listed, list):
+            listed.clear()
+        if sorted(ev.modules) != sorted(nodes):
+            return "ERR:modules-listing-changed-after-the-caller-emptied-the-list-it-was-given"
+    except Exception as e:  # noqa: BLE001
+        return "ERR:modules-property-raises-" + type(e).__name__
     return snapshot_str(nodes, imps, hier)
 
 
